@@ -133,26 +133,122 @@ theorem thief_not_resetting (s : St) (h : Inv s) (p : Pid) (hl : s.lock = .thief
     | true => have := h.lockO.2 ho; rw [hl] at this; cases this
   cases hpc : s.opc <;> simp [hpc, ownerLocked, resetting] at h0 ⊢
 
-macro "tso_simp_h" : tactic => `(tactic|
-  simp only [ownerLocked, carry, resetting, ownerFlight] at *)
+/-! ### Small-context automation
+    Destructing the whole invariant (`cases h`) puts ≈130 hypotheses in front of every `grind` call
+    and makes every clause of the new state a separate `grind` problem over all of them.  The
+    tactics below keep `h : Inv s` folded: `inv_core` adds the handful of global clauses (lock
+    discipline, `len`, `lbase`, `mtop`, `shz`, `trn`, `trF`) plus the clauses named by the caller
+    (normally the clause of the current program counter); after `constructor`, `inv_pick` adds to
+    each goal only the OLD version of the clause being proved.  Unchanged clauses then close by
+    `exact`, clauses of other program counters by constructor mismatch, clauses quantified over
+    the participants by a case split on the stepping participant, and only the few clauses the step
+    really touches go to `grind` – with a context of a dozen hypotheses. -/
+section FastTactics
+open Lean Elab Tactic Meta
 
-macro "tso_finish" : tactic => `(tactic| (
+/-- `inv_core h [f1, f2, …]`: add the global clauses of `h : Inv s` and the listed clauses to the context -/
+elab "inv_core " h:ident " [" fs:ident,* "]" : tactic => withMainContext do
+  let g ← getMainGoal
+  let hExpr ← elabTerm h none
+  let mut names : Array Name := #[`cfg, `lockO, `lockT, `len, `lbase, `mtop, `shz, `trn, `trF]
+  for f in fs.getElems do
+    let n := f.getId.eraseMacroScopes
+    unless names.contains n do names := names.push n
+  let mut g := g
+  for f in names do
+    let projName := ``Inv ++ f
+    if (← getEnv).contains projName then
+      let pf ← mkAppM projName #[hExpr]
+      let ty ← inferType pf
+      let g' ← g.assert (Name.mkSimple ("hc_" ++ f.toString)) ty pf
+      let (_, g'') ← g'.intro1P
+      g := g''
+  replaceMainGoal [g]
+
+/-- on a goal produced by `constructor` on `Inv s'` (its tag ends in the field name `F`): add the old
+    clause `h.F` as the newest hypothesis -/
+elab "inv_pick " h:ident : tactic => withMainContext do
+  let g ← getMainGoal
+  let tag ← g.getTag
+  let fld := match tag with
+    | .str _ s => Name.mkSimple s
+    | _ => Name.anonymous
+  let hExpr ← elabTerm h none
+  let pf ← mkAppM (``Inv ++ fld) #[hExpr]
+  let ty ← inferType pf
+  let g' ← g.assert `hold ty pf
+  let (_, g'') ← g'.intro1
+  replaceMainGoal [g'']
+
+end FastTactics
+
+/-- the goals left after `constructor` (owner-side step or drain; `hpc : s.opc = …`) -/
+macro "tso_goalsO " h:ident hpc:ident : tactic => `(tactic| (
+    all_goals (inv_pick $h; rename_i hold)
+    all_goals (first | exact hold | (
+      (try simp only [$hpc:ident, ownerLocked, carry, resetting, ownerFlight, upd_apply, applySto] at hold ⊢)
+      first | assumption | (intros; contradiction) | grind [thiefLocked, mayBuf, notTrans, thiefFlight, popWin, List.length_dropLast] | grind [thiefLocked, mayBuf, notTrans, thiefFlight, popWin, List.length_dropLast, getLast?_tail_of_length, head?_append_of_ne, upd_apply, CarryShape, Pu2Shape, PofShape, Po6Shape, Po8Shape, Po9Shape, InsShape, Rc1Shape, Rc2Shape, RcPre, RcShape, Po5cShape, Cl2Shape, Cl3Shape, Wk4uShape, Vk5Shape, VuShape, TkfShape, Tk6Shape] | (cases $h:ident; (try simp only [$hpc:ident, ownerLocked, carry, resetting, ownerFlight, upd_apply, applySto] at *); grind [thiefLocked, mayBuf, notTrans, thiefFlight, popWin, List.length_dropLast, getLast?_tail_of_length, head?_append_of_ne, upd_apply, CarryShape, Pu2Shape, PofShape, Po6Shape, Po8Shape, Po9Shape, InsShape, Rc1Shape, Rc2Shape, RcPre, RcShape, Po5cShape, Cl2Shape, Cl3Shape, Wk4uShape, Vk5Shape, VuShape, TkfShape, Tk6Shape]) | skip))))
+
+/-- the goals left after `constructor` (step or drain of participant `p`) -/
+macro "tso_goalsT " h:ident p:ident : tactic => `(tactic| (
+    all_goals (inv_pick $h; rename_i hold)
+    all_goals (first | exact hold | (
+      (try simp only [ownerLocked, carry, resetting, ownerFlight, upd_apply, applySto] at hold ⊢)
+      first | assumption | (intros; contradiction) | (intro q; if hq : q = $p then (subst hq; simp only [if_true]; intros; contradiction) else (simp only [if_neg hq]; exact hold q)) | grind [thiefLocked, mayBuf, notTrans, thiefFlight, popWin, List.length_dropLast] | grind [thiefLocked, mayBuf, notTrans, thiefFlight, popWin, List.length_dropLast, getLast?_tail_of_length, head?_append_of_ne, upd_apply, CarryShape, Pu2Shape, PofShape, Po6Shape, Po8Shape, Po9Shape, InsShape, Rc1Shape, Rc2Shape, RcPre, RcShape, Po5cShape, Cl2Shape, Cl3Shape, Wk4uShape, Vk5Shape, VuShape, TkfShape, Tk6Shape] | (cases $h:ident; (try simp only [ownerLocked, carry, resetting, ownerFlight, upd_apply, applySto] at *); grind [thiefLocked, mayBuf, notTrans, thiefFlight, popWin, List.length_dropLast, getLast?_tail_of_length, head?_append_of_ne, upd_apply, CarryShape, Pu2Shape, PofShape, Po6Shape, Po8Shape, Po9Shape, InsShape, Rc1Shape, Rc2Shape, RcPre, RcShape, Po5cShape, Cl2Shape, Cl3Shape, Wk4uShape, Vk5Shape, VuShape, TkfShape, Tk6Shape]) | skip))))
+
+/-- the names `inv_core` gives to the clauses it adds -/
+def coreIdents (fs : Array Lean.Syntax) : Array Lean.Ident :=
+  let base : Array Lean.Name := #[`lockO, `lbase, `mtop, `shz]
+  let extra := (fs.map (·.getId)).filter (fun n => !base.contains n && !#[`cfg, `lockT, `len, `trn, `trF].contains n)
+  (base ++ extra).map fun n => Lean.mkIdent (Lean.Name.mkSimple ("hc_" ++ n.toString))
+
+/-- complete preservation proof of an owner-side step: `h : Inv s` folded, `hpc : s.opc = …`;
+    the listed clauses must be fields of `Inv` -/
+macro "tso_fastO " h:ident hpc:ident " [" fs:ident,* "]" : tactic => do
+  let ids := coreIdents fs.getElems
+  `(tactic| (
+    inv_core $h [$fs,*]
+    (try simp only [$hpc:ident, ownerLocked, carry, resetting, ownerFlight] at $ids:ident*)
     constructor
-    all_goals (try simp only [ownerLocked, carry, resetting, ownerFlight, upd_apply, applySto])
-    all_goals (first | assumption | grind [thiefLocked, mayBuf, notTrans, thiefFlight, popWin, List.length_dropLast] | grind [thiefLocked, mayBuf, notTrans, thiefFlight, popWin, List.length_dropLast, getLast?_tail_of_length, head?_append_of_ne, CarryShape, Pu2Shape, PofShape, Po6Shape, Po8Shape, Po9Shape, InsShape, Rc1Shape, Rc2Shape, RcPre, RcShape, Po5cShape, Cl2Shape, Cl3Shape, Wk4uShape, Vk5Shape, VuShape, TkfShape, Tk6Shape] | skip)))
+    tso_goalsO $h $hpc))
 
-/-- the closing part of `tso_finish`, for proofs that treat some clauses by hand after `constructor` -/
-macro "tso_rest" : tactic => `(tactic| (
-    all_goals (first | assumption | grind [thiefLocked, mayBuf, notTrans, thiefFlight, popWin, List.length_dropLast] | grind [thiefLocked, mayBuf, notTrans, thiefFlight, popWin, List.length_dropLast, getLast?_tail_of_length, head?_append_of_ne, upd_apply, CarryShape, Pu2Shape, PofShape, Po6Shape, Po8Shape, Po9Shape, InsShape, Rc1Shape, Rc2Shape, RcPre, RcShape, Po5cShape, Cl2Shape, Cl3Shape, Wk4uShape, Vk5Shape, VuShape, TkfShape, Tk6Shape] | skip)))
+/-- complete preservation proof of a step of participant `p` -/
+macro "tso_fastT " h:ident p:ident " [" fs:ident,* "]" : tactic => do
+  let ids := coreIdents fs.getElems
+  `(tactic| (
+    inv_core $h [$fs,*]
+    (try simp only [ownerLocked, carry, resetting, ownerFlight] at $ids:ident*)
+    constructor
+    tso_goalsT $h $p))
+
+/-- `inv_core` followed by the normalisation of the clauses it added (for proofs that treat some clauses by hand) -/
+macro "tso_coreO " h:ident hpc:ident " [" fs:ident,* "]" : tactic => do
+  let ids := coreIdents fs.getElems
+  `(tactic| (
+    inv_core $h [$fs,*]
+    (try simp only [$hpc:ident, ownerLocked, carry, resetting, ownerFlight] at $ids:ident*)))
+
+macro "tso_coreT " h:ident " [" fs:ident,* "]" : tactic => do
+  let ids := coreIdents fs.getElems
+  `(tactic| (
+    inv_core $h [$fs,*]
+    (try simp only [ownerLocked, carry, resetting, ownerFlight] at $ids:ident*)))
+
+
+
 
 /-- a store at the head of the owner's buffer that no buffer-shape clause of this program counter allows -/
 macro "tso_absurd" : tactic => `(tactic|
   grind [CarryShape, Pu2Shape, PofShape, Po5cShape, Po6Shape, Po8Shape, Po9Shape, InsShape, Rc1Shape, Rc2Shape, RcPre, RcShape, Cl2Shape, Cl3Shape])
 
-/-- like `tso_finish`, with the shapes unfolded at once (flush steps) -/
-macro "tso_finish3" : tactic => `(tactic| (
-    constructor
-    all_goals (try simp only [ownerLocked, carry, resetting, ownerFlight, upd_apply, applySto])
-    all_goals (first | assumption | grind [thiefLocked, mayBuf, notTrans, thiefFlight, popWin, List.length_dropLast, getLast?_tail_of_length, head?_append_of_ne, upd_apply, CarryShape, Pu2Shape, PofShape, Po6Shape, Po8Shape, Po9Shape, InsShape, Rc1Shape, Rc2Shape, RcPre, RcShape, Po5cShape, Cl2Shape, Cl3Shape, Wk4uShape, Vk5Shape, VuShape, TkfShape, Tk6Shape] | skip)))
+/-- `tso_absurd` with only the owner's buffer-shape clauses in the context (`h : Inv s` folded, `hpc : s.opc = …`) -/
+macro "tso_shapes_core " h:ident hpc:ident : tactic => `(tactic| (
+  inv_core $h [carryC, stuck, pul, pub, pum, pus, puv, pux, pu1, pu2, pof, po2, pol, po4, po3, po5, po5b, po5c, po5d, po6,
+    po7, po8, po9, stuckL, pt1, pt2, pt3, pt4, pt5, pt6, pt7, pt8, pt9, asF, cl1, cl2, cl3]
+  simp only [$hpc:ident, ownerLocked, carry, resetting, ownerFlight] at *
+  tso_absurd))
+
+macro "tso_absurd_core " h:ident hpc:ident : tactic => `(tactic| (exfalso; tso_shapes_core $h $hpc))
+
 
 end MythVerif.WsqTso
